@@ -256,7 +256,7 @@ func enumerate(e *Entry, v []byte, p *Plan) []Mut {
 		all = append(all, Mut{K: "zeros"}, Mut{K: "ones"}, Mut{K: "rand", A: n, B: 1}, Mut{K: "rand", A: n, B: 2})
 	case "aware":
 		for i := range e.Aware {
-			for b := 0; b < 16; b++ {
+			for b := 0; b < 32; b++ {
 				all = append(all, Mut{K: "aware", A: i, B: b})
 			}
 		}
